@@ -249,6 +249,10 @@ def run(ctx, rec):
         cases = cases[ctx.shard:: ctx.nshards]
     for k, (kind, w, chain) in enumerate(cases):
         judge_case(rec, kind, w, chain, sample=(k % 1500 == 7))
+    if not ctx.quick and ctx.shard == 0:
+        from .. import suite
+
+        suite.run_suite(rec, "slice", ["slice-", "width-", "resolve-", "reported-"])
     rec.exhaustive = False
     rec.extra["explanation_exhaustive"] = "the boxes listed under exhaustive_boxes are enumerated completely; the rest is sampled"
 
